@@ -55,7 +55,7 @@ def run(ctx):
     for e in g[:2] + t[:3]:
         ctx.samples.append(slim(e))
     bad = vlib.validate_trace(ctx, "Slip10Trace", g + t)
-    for e in vlib.reproduce(ctx, binp, bad):
+    for e in vlib.reproduce(ctx, binp, bad, history=g + t):
         ctx.bad.append(dict(event=slim(e), reason="real slip10 derivation differs from the Slip10 specification"))
     return vlib.finish(ctx, LEVEL, RULE, ASSUME, matchers=MATCHERS,
                        technique="TLA+ spec Slip10: TLC model of the retry procedure; all retry/permanent-error scripts driven through the real code by a scripted plug-in curve; real-curve traces validated with HMAC/point facts and BigNat")
